@@ -203,7 +203,12 @@ class Ctx:
         # second solver: every failing query, and the first instances of every lemma (same query shape afterwards)
         cnt = self.__dict__.setdefault("_cv_count", {})
         cnt[name] = cnt.get(name, 0) + 1
-        agree = self._cvc5(pc, claim, ok) if (not ok or cnt[name] <= 3) else "skipped"
+        # (a lemma that fails on thousands of paths is cross-checked on its first failing instances only: one disagreement
+        # would already make the verdict inconclusive, and a cvc5 process per instance turns a seeded break into an hour)
+        fcnt = self.__dict__.setdefault("_cv_fail", {})
+        if not ok:
+            fcnt[name] = fcnt.get(name, 0) + 1
+        agree = self._cvc5(pc, claim, ok) if ((not ok and fcnt[name] <= 3) or (ok and cnt[name] <= 3)) else "skipped"
         if self._dup(name, bool(ok), key):
             return ok
         entry = {"name": name, "ok": bool(ok), "key": key, "cvc5": agree}
